@@ -78,6 +78,8 @@ struct Gen<'a> {
     closed: Vec<bool>,
     features: Vec<&'static str>,
     tags: Vec<String>,
+    /// only file / directory kinds (scenarios that also run on the real NativeEffectBackend)
+    file_only: bool,
 }
 
 /// A way to pack one or two handles into a value: (type, value, pattern, post statements, bound vars)
@@ -243,11 +245,11 @@ impl<'a> Gen<'a> {
         let fail = self.r.chance(1, 30);
         // accept needs a listener variable
         let lis: Vec<HVar> = self.procs[p].handles.iter().filter(|h| h.rk == RK::Lis).cloned().collect();
-        let choice = self.r.usize(if lis.is_empty() { 9 } else { 11 });
+        let choice = if self.file_only { self.r.usize(5) } else { self.r.usize(if lis.is_empty() { 9 } else { 11 }) };
         let (rk, stmt, dies) = match choice {
             0..=3 => {
                 self.features.push("open:file");
-                (RK::File, format!("{v} = [\"/{}/f{n}\" .0, 0, 0] __file_open__", if fail { "fail" } else { "ok" }), fail)
+                (RK::File, format!("{v} = [\"/{}/f{n}\" .0, 66, 420] __file_open__", if fail { "fail" } else { "ok" }), fail)
             }
             4 => {
                 self.features.push("open:dir");
@@ -294,7 +296,7 @@ impl<'a> Gen<'a> {
     fn act_use(&mut self, p: usize) {
         let hs = self.pick_for_use(p);
         let Some(h) = hs.first().cloned() else { return };
-        let bad_world = self.r.chance(1, 30);
+        let bad_world = !self.file_only && self.r.chance(1, 30);
         let len = if bad_world { 13 } else { 5 };
         let data = if bad_world { "\"abcdefghijklm\" .0" } else { "\"abc\" .0" };
         let mut world_matters = true;
@@ -541,7 +543,7 @@ impl<'a> Gen<'a> {
     }
 }
 
-pub fn generate(r: &mut Rng, max_procs: usize, n_actions: usize) -> Scenario {
+pub fn generate(r: &mut Rng, max_procs: usize, n_actions: usize, file_only: bool) -> Scenario {
     let mut g = Gen {
         r,
         procs: vec![Proc {
@@ -561,6 +563,7 @@ pub fn generate(r: &mut Rng, max_procs: usize, n_actions: usize) -> Scenario {
         closed: vec![],
         features: vec![],
         tags: vec![],
+        file_only,
     };
     // a resource to start with
     g.act_open(0);
